@@ -669,6 +669,57 @@ class C03Thresholds(Oracle):
                 self.res.probe("wait_checked")
 
 
+        self._repeated_waits(w, recs)
+
+    def _repeated_waits(self, w, recs):
+        """Every invocation of a Wait (macro called again, alarm body run again) lasts its duration: for each invocation
+        of the Wait, the first later invocation of the directly following line starts no earlier than d after it."""
+        calls_from_interrupts = any(c.kind == "Call macro" and any(a.kind in ("Watch", "Alarm") for a in c.ancestors())
+                                    for c in self.tree.walk())
+        order = {lid: k for k, (lid, _) in enumerate(self.plan["method"])}
+        for nid, states in recs.items():
+            n = self.nodes.get(nid)
+            if n is None or n.kind != "Wait" or n.threshold is not None or not in_repeating_scope(n):
+                continue
+            if calls_from_interrupts and any(a.kind == "Macro" for a in n.ancestors()):
+                continue      # two interrupts may walk one macro body at overlapping times (known finding C02@concurrent)
+            m = re.match(r"^([0-9.]+)\s*(s|min|h)$", n.arg.strip())
+            if not m:
+                continue
+            d = float(m.group(1)) * self.UNIT[m.group(2)]
+            sibs = list(n.parent.children)
+            i = sibs.index(n)
+            if i + 1 >= len(sibs) or sibs[i + 1].is_ws or order.get(sibs[i + 1].id, -1) != order.get(n.id, -9) + 1:
+                continue
+            nx = sibs[i + 1]
+            if nx.threshold is not None or nx.kind in ("Block", "Watch", "Alarm", "Macro"):
+                continue
+
+            def first_per_instance(sts):
+                out: dict[str, tuple[float, bool]] = {}
+                for name, _tick, t, inst in sts:
+                    if inst not in out:
+                        out[inst] = (t, False)
+                    if name in ("forced", "cancelled"):
+                        out[inst] = (out[inst][0], True)
+                return sorted(out.values())
+            ws = first_per_instance(states)
+            xs = first_per_instance(recs.get(nx.id, []))
+            for j, (t0, skipped) in enumerate(ws):
+                if skipped:
+                    continue
+                t_next = ws[j + 1][0] if j + 1 < len(ws) else float("inf")
+                later = [t for t, _ in xs if t0 < t < t_next]
+                if not later:
+                    continue
+                if later[0] - t0 < d - 1e-6:
+                    self.v("C03", "C03.wait_too_short_in_repeated_invocation", "Wait",
+                           f"invocation {j + 1} of {n.text.strip()!r} started {t0:.3f}, the next line {nx.text.strip()!r} "
+                           f"started {later[0]:.3f}: {later[0] - t0:.3f} s < {d} s")
+                    return
+                self.res.probe("repeated_wait_checked")
+
+
 # ---------------------------------------------------------------------------------------------- C04
 class C04Interrupts(Oracle):
     """Watch body runs at most once and only after its condition held (or it was forced); never after cancel or
@@ -692,11 +743,17 @@ class C04Interrupts(Oracle):
         self.conds = {n.id: model.cond_parse(n.arg) for n in self.watches}
         self.running_true_streak: dict[str, int] = {}
         self.activated: dict[str, list[int]] = {}
+        self.cancelled_offered_at: dict[str, int] = {}
 
     def before_tick(self, w, inc):
         self.ev_pos = len(w.events)
         self.pre = {"Run Time": w.tag("Run Time"), "Block Time": w.tag("Block Time"), "Run Counter": w.tag("Run Counter"),
                     "state": w.state}
+
+    offered_now = False
+
+    def before_cancel_force(self, what, item, target_id):
+        self.offered_now = item is not None and what == "cancel" and bool(item.cancellable)
 
     def after_cancel_force(self, what, item, target_id, ok):
         if what == "force" and not ok:
@@ -711,6 +768,8 @@ class C04Interrupts(Oracle):
                     self.forced[n.id] = self.forced.get(n.id, 0) + 1
                 elif len(same) == 1:
                     self.cancelled_at.setdefault(n.id, self.w.tick_no)
+                    if self.offered_now:
+                        self.cancelled_offered_at.setdefault(n.id, self.w.tick_no)
 
     def after_tick(self, w, inc):
         for e in w.events[self.ev_pos:]:
@@ -762,6 +821,12 @@ class C04Interrupts(Oracle):
                            f"{trues[:6]} (accepted force requests for it: {self.forced.get(n.id, 0)})")
                 else:
                     self.res.probe("activation_checked")
+            co = self.cancelled_offered_at.get(n.id)
+            if co is not None and any(a > co for a in acts):
+                # the cancel was offered by the run log at request time (tick co complete) and accepted, yet the body was
+                # entered in a later tick
+                self.v("C12", "C12.cancelled_watch_body_ran", n.kind,
+                       f"{n.kind} {n.arg!r}: cancel offered and accepted after tick {co}, body activated in ticks {acts}")
             ca = self.cancelled_at.get(n.id)
             if ca is not None and any(a > ca + 1 for a in acts):
                 self.v("C04", "C04.body_ran_after_cancel", n.kind,
